@@ -27,7 +27,7 @@ ASSUMPTIONS = ['(a) bitwise for MD; 1e-8*total for RDA / IG (ARPACK start vector
                '(d) as C03: relative sub-optimality <= 0.03 within 1000 -> 5000 iterations per call',
                'caller-owned objects are the measurement list, its Q / y arrays and projection tuples, and the structural-zero dict']
 PLAN = {
-    'quick': dict(cases=120, budget_s=90, case_timeout=600, min_cases=30),
+    'quick': dict(cases=120, budget_s=150, case_timeout=600, min_cases=20),
     'thorough': dict(cases=1200, budget_s=1200, case_timeout=1200, min_cases=200),
 }
 
